@@ -21,6 +21,14 @@ def main():
     try:
         t0 = time.time()
         trxcon_part.gen(run)
+        # the driver executable links every Driver/*.lean, hence needs every Gen/*.lean: run the
+        # translators of the registered checks as ./setup does
+        import importlib, props
+        for pid in props.ALL:
+            try:
+                importlib.import_module("props.%s" % pid).gen(run)
+            except Exception as e:
+                print("translator of %s failed: %s" % (pid, e))
         if not args.no_lean:
             res = vf.prove(trxcon_part.LEAN_MODULES)
             print("lean: %d theorems, %d discharged, ok=%s (%.0fs)" % (len(res.theorems), len(res.discharged), res.ok, res.build_s))
